@@ -178,7 +178,7 @@ Proof. exists [], []. simpl. rewrite app_nil_r. reflexivity. Qed.
 
 Lemma Substring_wrap p x a b : Substring p x -> Substring p (a ++ x ++ b).
 Proof.
-  intros (u & v & ->). exists (a ++ u), (v ++ b). rewrite <- !app_assoc. reflexivity.
+  intros (u & v & ->). exists (a ++ u), (v ++ b). repeat rewrite <- app_assoc. reflexivity.
 Qed.
 
 Lemma Substring_app_r p x a : Substring p x -> Substring p (a ++ x).
@@ -201,8 +201,8 @@ Qed.
 Lemma format_attachment_contains n t : Substring t (format_attachment n t).
 Proof.
   unfold format_attachment. destruct (existsb (Nat.eqb nl) t).
-  - exists (name_text n ++ t_open ++ [nl]), ([nl] ++ t_close ++ [nl]). rewrite <- !app_assoc. reflexivity.
-  - exists (name_text n ++ t_open), t_close. rewrite <- !app_assoc. reflexivity.
+  - exists (name_text n ++ t_open ++ [nl]), ([nl] ++ t_close ++ [nl]). repeat rewrite <- app_assoc. reflexivity.
+  - exists (name_text n ++ t_open), t_close. repeat rewrite <- app_assoc. reflexivity.
 Qed.
 
 Lemma nodupb_NoDup l : nodupb l = true -> NoDup l.
@@ -213,6 +213,8 @@ Proof.
   assert (existsb (Nat.eqb x) l = true); [|congruence].
   apply existsb_exists. exists x. split; [exact Hin|apply Nat.eqb_refl].
 Qed.
+
+Local Arguments option_eqb : simpl never.
 
 (* what the scan of _details_to_str keeps of a text attachment that is not blank *)
 Lemma d2s_scan_keeps special ds n t :
@@ -227,16 +229,16 @@ Proof.
   simpl. destruct (d2s_scan special r) as [[[bin emp] txt] sp] eqn:E.
   destruct Hin as [Heq|Hin].
   - injection Heq as -> ->. simpl.
-    destruct (strip t) eqn:Es; [congruence|]. rewrite <- Es.
-    destruct (option_eqb Nat.eqb (Some n) special); [reflexivity|left; reflexivity].
+    destruct (strip t) eqn:Es; [congruence|].
+    destruct (option_eqb Nat.eqb (Some n) special); simpl; [reflexivity|left; reflexivity].
   - specialize (IH Hnd' Hin Hne).
     assert (Hmn : m <> n).
     { intro; subst m. apply Hnotin. change n with (fst (n, DText t)). apply in_map. exact Hin. }
     destruct (dtext k) as [tk|]; [|exact IH].
-    destruct (strip tk) eqn:Etk; [exact IH|]. rewrite <- Etk.
-    destruct (option_eqb Nat.eqb (Some m) special) eqn:Em.
+    destruct (strip tk) eqn:Etk; [exact IH|].
+    destruct (option_eqb Nat.eqb (Some m) special) eqn:Em; simpl.
     + destruct (option_eqb Nat.eqb (Some n) special) eqn:En; [|exact IH].
-      exfalso. destruct special as [s|]; simpl in Em, En; [|discriminate].
+      exfalso. destruct special as [s|]; unfold option_eqb in Em, En; [|discriminate].
       apply Nat.eqb_eq in Em, En. congruence.
     + destruct (option_eqb Nat.eqb (Some n) special); [exact IH|right; exact IH].
 Qed.
@@ -276,6 +278,717 @@ Proof.
     + destruct (strip t); [congruence|discriminate].
     + apply substringb_sound. exact H.
   - intros H [n k] Hin. simpl. destruct k as [t| |]; try reflexivity.
-    destruct (strip t) eqn:E; [reflexivity|]. rewrite <- E. simpl.
+    destruct (strip t) eqn:E; [reflexivity|]. rewrite <- E. apply orb_true_iff. right.
     apply substringb_complete. apply H with n; [exact Hin|congruence].
 Qed.
+
+(* ================= the degradation table ================= *)
+Lemma details_ok_contains d sp : details_okb d = true -> contains_all d (details_to_str d sp) = true.
+Proof.
+  intro H. unfold details_okb in H. split_andb H.
+  apply contains_all_spec. apply details_to_str_contains. apply nodupb_NoDup. exact H.
+Qed.
+
+Ltac crush_refl :=
+  rewrite ?test_eqb_refl, ?errv_eqb_refl, ?details_eqb_refl, ?text_eqb_refl, ?ekind_eqb_refl, ?okind_eqb_refl,
+    ?opt_details_eqb_refl.
+
+(* what an ExtendedToOriginalDecorator sends to a result with capabilities c, for one
+   startTest / outcome / stopTest, is one call, which the result has a method for, and it is the
+   one the table names *)
+Lemma e2o_conv_delivers c hc : is_bracket hc = true -> call_okb hc = true ->
+  exists lc, e2o_conv c hc = [lc] /\ is_bracket lc = true /\ supports c lc = true /\ delivered_ok c hc lc = true.
+Proof.
+  intros Hb Hok.
+  destruct hc as [ | | | | | t | t | k t a | t a | k t od | | ]; try discriminate Hb; clear Hb.
+  - exists (StartTest t). simpl. crush_refl. auto.
+  - exists (StopTest t). simpl. crush_refl. auto.
+  - destruct a as [e|d].
+    + destruct k; simpl; destruct (c_xfail c) eqn:X; simpl; eexists; (split; [reflexivity|]); simpl;
+        rewrite ?X; crush_refl; auto.
+    + assert (Hc : contains_all d (details_to_str d (Some n_traceback)) = true)
+        by (apply details_ok_contains; destruct k; exact Hok).
+      destruct k; simpl; destruct (c_xfail c) eqn:X; destruct (c_details c) eqn:D; simpl; eexists;
+        (split; [reflexivity|]); simpl; rewrite ?X, ?D; crush_refl; rewrite ?Hc; auto.
+  - destruct a as [r|d].
+    + simpl; destruct (c_skip c) eqn:X; simpl; eexists; (split; [reflexivity|]); simpl;
+        rewrite ?X; crush_refl; auto.
+    + simpl in Hok.
+      simpl; destruct (c_skip c) eqn:X; destruct (c_details c) eqn:D; simpl; eexists;
+        (split; [reflexivity|]); simpl; rewrite ?X, ?D; crush_refl; auto.
+      repeat split. unfold skip_reason.
+      destruct (lookup n_reason d) as [[r| |]|] eqn:L; simpl; crush_refl; auto.
+      apply details_ok_contains. exact Hok.
+  - destruct k, od as [d|]; simpl; destruct (c_uxs c) eqn:X; destruct (c_details c) eqn:D; simpl; eexists;
+      (split; [reflexivity|]); simpl; rewrite ?X, ?D; crush_refl; auto.
+Qed.
+
+Definition blog (c : caps) (l : list call) : list call := bracket (target_log c l).
+
+Lemma bracket_app a b : bracket (a ++ b) = bracket a ++ bracket b.
+Proof. apply filter_app. Qed.
+
+Lemma blog_app c a b : blog c (a ++ b) = blog c a ++ blog c b.
+Proof. unfold blog, target_log, bracket. rewrite !filter_app. reflexivity. Qed.
+
+Lemma e2o_conv_noise c hc : is_bracket hc = false -> bracket (e2o_conv c hc) = [].
+Proof.
+  destruct hc; try discriminate; intros _; simpl;
+    repeat match goal with |- context [if ?b then _ else _] => destruct b end; reflexivity.
+Qed.
+
+Lemma blog_nil_of_bracket_nil c l : bracket l = [] -> blog c l = [].
+Proof.
+  unfold blog, target_log, bracket. induction l as [|x l IH]; simpl; [reflexivity|].
+  destruct (is_bracket x) eqn:B; [discriminate|]. intro H.
+  destruct (supports c x); simpl; rewrite ?B; apply IH; exact H.
+Qed.
+
+Lemma multi_conv_bracket ci hc : bracket (multi_conv ci hc) = bracket (e2o_conv ci hc).
+Proof. destruct hc; try reflexivity. simpl. destruct (c_progress ci); reflexivity. Qed.
+
+Lemma multi_conv_blog c ci hc : blog c (multi_conv ci hc) = blog c (e2o_conv ci hc).
+Proof.
+  destruct hc; try reflexivity. unfold blog. simpl. destruct (c_progress ci); [|reflexivity].
+  simpl. destruct (c_progress c); reflexivity.
+Qed.
+
+(* directly below an ExtendedToOriginalDecorator (or as a member of a MultiTestResult): any result *)
+Lemma e2o_layer_delivers c h : forallb call_okb (bracket h) = true ->
+  forall2b (delivered_ok c) (bracket h) (blog c (flat_map (e2o_conv c) h)) = true.
+Proof.
+  induction h as [|hc h IH]; intro Hok; [reflexivity|].
+  simpl flat_map. rewrite blog_app. unfold bracket at 1. simpl filter. fold (bracket h).
+  destruct (is_bracket hc) eqn:B.
+  - unfold bracket in Hok. simpl in Hok. rewrite B in Hok. simpl in Hok.
+    apply andb_true_iff in Hok as [Hc Hr].
+    destruct (e2o_conv_delivers c hc B Hc) as (lc & -> & Bl & Sl & Dl).
+    unfold blog at 1, target_log, bracket. simpl. rewrite Sl. simpl. rewrite Bl. simpl.
+    rewrite Dl. apply IH. exact Hr.
+  - rewrite (blog_nil_of_bracket_nil c _ (e2o_conv_noise c hc B)). simpl. apply IH.
+    unfold bracket in Hok. simpl in Hok. rewrite B in Hok. exact Hok.
+Qed.
+
+Lemma flat_map_blog_ext c (f g : call -> list call) h :
+  (forall x, blog c (f x) = blog c (g x)) -> blog c (flat_map f h) = blog c (flat_map g h).
+Proof.
+  intro H. induction h as [|x h IH]; [reflexivity|]. simpl. rewrite !blog_app, H, IH. reflexivity.
+Qed.
+
+Lemma multi_layer_delivers c h : forallb call_okb (bracket h) = true ->
+  forall2b (delivered_ok c) (bracket h) (blog c (flat_map (multi_conv c) h)) = true.
+Proof.
+  intro Hok. rewrite (flat_map_blog_ext c (multi_conv c) (e2o_conv c)).
+  - apply e2o_layer_delivers. exact Hok.
+  - intro x. apply multi_conv_blog.
+Qed.
+
+(* a layer above something that accepts every outcome with details passes startTest / outcome /
+   stopTest on unchanged *)
+Definition oext (c : caps) : bool := c_skip c && c_xfail c && c_uxs c && c_details c.
+
+Lemma e2o_conv_transparent ci hc : oext ci = true -> bracket (e2o_conv ci hc) = bracket [hc].
+Proof.
+  unfold oext. intro H. split_andb H.
+  destruct hc as [ | | | | | t | t | k t a | t a | k t od | | ].
+  1-5, 11-12: simpl; repeat match goal with |- context [if ?b then _ else _] => destruct b end; reflexivity.
+  - reflexivity.
+  - reflexivity.
+  - destruct k, a; simpl; rewrite ?H2, ?H0; reflexivity.
+  - destruct a; simpl; rewrite ?H, ?H0; reflexivity.
+  - destruct k, od; simpl; rewrite ?H1, ?H0; reflexivity.
+Qed.
+
+Lemma layer_conv_transparent l ci hc : oext ci = true -> bracket (layer_conv l ci hc) = bracket [hc].
+Proof.
+  intro H. destruct l; simpl.
+  - apply e2o_conv_transparent; exact H.
+  - rewrite multi_conv_bracket. apply e2o_conv_transparent; exact H.
+  - destruct hc; reflexivity.
+  - destruct hc; reflexivity.
+Qed.
+
+Lemma flat_map_bracket (f : call -> list call) h :
+  (forall x, bracket (f x) = bracket [x]) -> bracket (flat_map f h) = bracket h.
+Proof.
+  intro H. induction h as [|x h IH]; [reflexivity|]. simpl flat_map. rewrite bracket_app, H, IH.
+  change (x :: h) with ([x] ++ h). rewrite bracket_app. reflexivity.
+Qed.
+
+(* a result that speaks the whole extended protocol, called without conversion *)
+Lemma direct_delivers c h : ext_caps c = true ->
+  forall2b (delivered_ok c) (bracket h) (blog c h) = true.
+Proof.
+  unfold ext_caps. intro H. split_andb H.
+  induction h as [|hc h IH]; [reflexivity|].
+  change (hc :: h) with ([hc] ++ h). rewrite blog_app, bracket_app.
+  assert (K : blog c [hc] = bracket [hc] /\
+              (is_bracket hc = true -> delivered_ok c hc hc = true)).
+  { unfold blog, target_log, bracket.
+    destruct hc as [ | | | | | t | t | k t a | t a | k t od | | ];
+      try (destruct k); try (destruct a); try (destruct od); simpl;
+      rewrite ?H, ?H0, ?H1, ?H2, ?H3, ?H4, ?H5, ?H6, ?H7; simpl; crush_refl;
+      (split; [try reflexivity|intro; try discriminate; try reflexivity]).
+    destruct (c_progress c); reflexivity. }
+  destruct K as [K1 K2]. rewrite K1.
+  unfold bracket at 1 3. simpl. destruct (is_bracket hc) eqn:B; simpl; [|exact IH].
+  rewrite (K2 eq_refl). exact IH.
+Qed.
+
+(* ================= paths of a well-formed stack ================= *)
+Definition leaf_ext (lf : leaf) : bool := match lf with LfTarget c => ext_caps c | LfByTest => true end.
+(* the object a path starts with speaks the extended protocol *)
+Definition pext (ls : list layer) (lf : leaf) : bool := match ls with [] => leaf_ext lf | _ => true end.
+(* every TestResultDecorator / Tagger on the path decorates something that does *)
+Fixpoint pwf (ls : list layer) (lf : leaf) : bool :=
+  match ls with
+  | [] => true
+  | LDeco :: r | LTagger _ _ :: r => pext r lf && pwf r lf
+  | _ :: r => pwf r lf
+  end.
+
+(* induction on the adapter tree, with the hypothesis for every member of a MultiTestResult *)
+Section AdapterInd.
+  Variable P : adapter -> Prop.
+  Hypothesis HT : forall c, P (Target c).
+  Hypothesis HB : P ByTest.
+  Hypothesis HE : forall a, P a -> P (E2O a).
+  Hypothesis HM : forall l, (forall a, In a l -> P a) -> P (Multi l).
+  Hypothesis HD : forall a, P a -> P (Deco a).
+  Hypothesis HG : forall n g a, P a -> P (Tagger n g a).
+  Fixpoint adapter_ind' (a : adapter) : P a :=
+    match a with
+    | Target c => HT c
+    | ByTest => HB
+    | E2O a' => HE a' (adapter_ind' a')
+    | Multi l =>
+        HM l ((fix go (l : list adapter) : forall a, In a l -> P a :=
+                 match l with
+                 | [] => fun a H => match H with end
+                 | x :: r => fun a H => match H with
+                                        | or_introl e => eq_ind x P (adapter_ind' x) a e
+                                        | or_intror H' => go r a H'
+                                        end
+                 end) l)
+    | Deco a' => HD a' (adapter_ind' a')
+    | Tagger n g a' => HG n g a' (adapter_ind' a')
+    end.
+End AdapterInd.
+
+Lemma paths_wf a : wf_stack a = true ->
+  forall p, In p (paths a) ->
+    pwf (fst p) (snd p) = true /\ (ext_ok a = true -> pext (fst p) (snd p) = true).
+Proof.
+  induction a as [c| |a IH|l IH|a IH|n g a IH] using adapter_ind'; simpl; intros Hwf p Hin.
+  - destruct Hin as [<-|[]]. simpl. auto.
+  - destruct Hin as [<-|[]]. simpl. auto.
+  - apply in_map_iff in Hin as (q & <- & Hq). destruct (IH Hwf q Hq) as [H1 _]. simpl. auto.
+  - apply andb_true_iff in Hwf as [_ Hwf]. rewrite forallb_forall in Hwf.
+    apply in_flat_map in Hin as (a & Ha & Hin).
+    apply in_map_iff in Hin as (q & <- & Hq). destruct (IH a Ha (Hwf a Ha) q Hq) as [H1 _]. simpl. auto.
+  - apply andb_true_iff in Hwf as [He Hwf].
+    apply in_map_iff in Hin as (q & <- & Hq). destruct (IH Hwf q Hq) as [H1 H2]. simpl.
+    rewrite (H2 He), H1. auto.
+  - apply andb_true_iff in Hwf as [He Hwf].
+    apply in_map_iff in Hin as (q & <- & Hq). destruct (IH Hwf q Hq) as [H1 H2]. simpl.
+    rewrite (H2 He), H1. auto.
+Qed.
+
+(* the tag changes of the Taggers on a path, innermost first *)
+Fixpoint ptaggers (ls : list layer) : list tag_change :=
+  match ls with
+  | [] => []
+  | LTagger n g :: r => ptaggers r ++ [(n, g)]
+  | _ :: r => ptaggers r
+  end.
+Definition spec_of_path (p : path) : leaf * list tag_change := (snd p, ptaggers (fst p)).
+
+Lemma spec_leaves_paths a : spec_leaves a = map spec_of_path (paths a).
+Proof.
+  induction a as [c| |a IH|l IH|a IH|n g a IH] using adapter_ind'; simpl; try reflexivity.
+  - rewrite IH, map_map. reflexivity.
+  - induction l as [|x l IHl]; [reflexivity|]. simpl. rewrite map_app, map_map.
+    rewrite (IH x (or_introl eq_refl)). f_equal. apply IHl. intros a Ha. apply IH. right; exact Ha.
+  - rewrite IH, map_map. reflexivity.
+  - rewrite IH, !map_map. reflexivity.
+Qed.
+
+Lemma piface_oext l r lf : oext (piface (l :: r) lf) = true.
+Proof. destruct l; reflexivity. Qed.
+
+(* startTest / outcome / stopTest at a logging result below any well-formed path: each once, in
+   order, in the form the table gives for the capabilities of that result *)
+Lemma target_path_delivers c ls : forall h,
+  pwf ls (LfTarget c) = true -> pext ls (LfTarget c) = true -> forallb call_okb (bracket h) = true ->
+  forall2b (delivered_ok c) (bracket h) (blog c (through ls (LfTarget c) h)) = true.
+Proof.
+  induction ls as [|l r IH]; intros h Hwf Hext Hok.
+  - simpl in *. apply direct_delivers. exact Hext.
+  - simpl through. destruct r as [|l2 r'].
+    + simpl through. simpl piface.
+      destruct l; simpl layer_conv.
+      * apply e2o_layer_delivers. exact Hok.
+      * apply multi_layer_delivers. exact Hok.
+      * simpl in Hwf. rewrite andb_true_r in Hwf.
+        rewrite <- (flat_map_bracket deco_conv h) at 1 by (intro x; destruct x; reflexivity).
+        apply direct_delivers. exact Hwf.
+      * simpl in Hwf. rewrite andb_true_r in Hwf.
+        rewrite <- (flat_map_bracket (tagger_conv new gone) h) at 1 by (intro x; destruct x; reflexivity).
+        apply direct_delivers. exact Hwf.
+    + set (h' := flat_map (layer_conv l (piface (l2 :: r') (LfTarget c))) h).
+      assert (Hb : bracket h' = bracket h).
+      { apply flat_map_bracket. intro x. apply layer_conv_transparent. apply piface_oext. }
+      rewrite <- Hb. apply IH.
+      * destruct l; simpl in Hwf; try exact Hwf; apply andb_true_iff in Hwf as [_ Hwf]; exact Hwf.
+      * reflexivity.
+      * rewrite Hb. exact Hok.
+Qed.
+
+(* ================= TestByTestResult ================= *)
+(* calls a TestByTestResult does nothing with *)
+Definition relevant (c : call) : bool := match c with Progress _ _ | Stop | Done => false | _ => true end.
+Definition sig (l : list call) : list call := filter relevant l.
+Definition tag_calls (tg : list tag_change) : list call := map (fun ch => Tags (fst ch) (snd ch)) tg.
+Definition inject1 (tg : list tag_change) (c : call) : list call :=
+  match c with StartTest _ => c :: tag_calls tg | _ => [c] end.
+(* the history with the Taggers' tags() calls put after every startTest *)
+Definition inject (tg : list tag_change) (h : list call) : list call := flat_map (inject1 tg) h.
+
+Lemma sig_app a b : sig (a ++ b) = sig a ++ sig b.
+Proof. apply filter_app. Qed.
+Lemma inject_app tg a b : inject tg (a ++ b) = inject tg a ++ inject tg b.
+Proof. apply flat_map_app. Qed.
+
+Lemma inject_nil h : inject [] h = h.
+Proof. induction h as [|c h IH]; [reflexivity|]. simpl. rewrite IH. destruct c; reflexivity. Qed.
+
+Lemma sig_tag_calls tg : sig (tag_calls tg) = tag_calls tg.
+Proof. induction tg as [|x tg IH]; [reflexivity|]. simpl. f_equal. exact IH. Qed.
+
+Lemma sig_inject tg h : sig (inject tg h) = inject tg (sig h).
+Proof.
+  induction h as [|c h IH]; [reflexivity|]. simpl. rewrite sig_app, IH.
+  destruct c; simpl; try reflexivity. rewrite sig_tag_calls. reflexivity.
+Qed.
+
+Lemma flat_map_sig_inject tg tg2 (f : call -> list call) h :
+  (forall c, sig (inject tg (f c)) = sig (inject tg2 [c])) ->
+  sig (inject tg (flat_map f h)) = sig (inject tg2 h).
+Proof.
+  intro H. induction h as [|c h IH]; [reflexivity|].
+  simpl flat_map. rewrite inject_app, sig_app, H, IH.
+  change (c :: h) with ([c] ++ h). rewrite inject_app, sig_app. reflexivity.
+Qed.
+
+(* has everything a TestByTestResult reacts to *)
+Definition tcaps (c : caps) : bool := oext c && c_startrun c && c_stoprun c && c_tags c && c_time c.
+
+Lemma e2o_conv_sig ci c : tcaps ci = true -> sig (e2o_conv ci c) = sig [c].
+Proof.
+  unfold tcaps, oext. intro H. split_andb H.
+  destruct c as [ | | | | | t | t | k t a | t a | k t od | | ];
+    try (destruct k); try (destruct a); try (destruct od); simpl;
+    rewrite ?H, ?H0, ?H1, ?H2, ?H3, ?H4, ?H5, ?H6; try reflexivity;
+    repeat match goal with |- context [if ?b then _ else _] => destruct b end; reflexivity.
+Qed.
+
+Lemma piface_tcaps r : tcaps (piface r LfByTest) = true.
+Proof. destruct r as [|[]]; reflexivity. Qed.
+
+Lemma through_bytest ls : forall h,
+  sig (through ls LfByTest h) = sig (inject (ptaggers ls) h).
+Proof.
+  induction ls as [|l r IH]; intro h.
+  - simpl. rewrite inject_nil. reflexivity.
+  - simpl through. rewrite IH.
+    pose proof (piface_tcaps r) as Hc. set (ci := piface r LfByTest) in *.
+    apply flat_map_sig_inject. intro c.
+    destruct l; simpl ptaggers; simpl layer_conv.
+    + rewrite !sig_inject, (e2o_conv_sig ci c Hc). reflexivity.
+    + rewrite !sig_inject. destruct c; unfold multi_conv; try (rewrite (e2o_conv_sig ci _ Hc); reflexivity). reflexivity.
+    + destruct c; reflexivity.
+    + destruct c; try reflexivity. simpl. unfold tag_calls. rewrite map_app. simpl.
+      rewrite !app_nil_r. reflexivity.
+Qed.
+
+Lemma bt_run_sig l : forall s, bt_run s (sig l) = bt_run s l.
+Proof.
+  induction l as [|c l IH]; intro s; [reflexivity|].
+  destruct c; simpl; rewrite ?IH; reflexivity.
+Qed.
+
+(* the status words are the documented ones (table obligation on Gen/Bytest.v) *)
+Lemma bt_words_documented :
+  (forall k t a, Some (bt_word_err k) = word_of (AddErr k t a))
+  /\ (forall t a, Some Gen.Bytest.bt_word_addSkip = word_of (AddSkip t a))
+  /\ (forall k t d, Some (bt_word_ok k) = word_of (AddOk k t d)).
+Proof. repeat split; intros; try destruct k; reflexivity. Qed.
+
+Definition bt_with_cur (b : bt) (cur : list tag) : bt :=
+  {| b_cur := cur; b_parents := b_parents b; b_now := b_now b; b_start := b_start b;
+     b_status := b_status b; b_details := b_details b |}.
+
+Lemma bt_run_tag_calls tg : forall b rest,
+  bt_run b (tag_calls tg ++ rest) = bt_run (bt_with_cur b (apply_changes (b_cur b) tg)) rest.
+Proof.
+  induction tg as [|[n g] tg IH]; intros b rest.
+  - destruct b; reflexivity.
+  - simpl. rewrite IH. reflexivity.
+Qed.
+
+(* the TagContext chain against the two-level reading *)
+Definition R (p : phase) (b : bt) (s : sst) : Prop :=
+  b_now b = s_now s /\ b_start b = s_start s /\ b_status b = s_word s /\ b_details b = s_det s /\
+  match p with
+  | Outside => s_loc s = None /\ b_cur b = s_glob s /\ b_parents b = []
+  | _ => s_loc s = Some (b_cur b) /\ b_parents b = [s_glob s]
+  end.
+
+Lemma bytest_simulation tg h : forall p b s,
+  R p b s -> bracketed_from p h = true -> bt_run b (inject tg h) = expected_cbs tg s h.
+Proof.
+  destruct bt_words_documented as (We & Ws & Wo).
+  induction h as [|c h IH]; intros p b s HR Hb; [reflexivity|].
+  destruct b as [cur par now st wd dt], s as [gl lo snow sst swd sdt].
+  unfold R in HR; simpl in HR. destruct HR as (E1 & E2 & E3 & E4 & E5). subst snow sst swd sdt.
+  destruct p; simpl in E5;
+    [destruct E5 as (-> & -> & ->) | destruct E5 as (-> & ->) | destruct E5 as (-> & ->)];
+    destruct c as [ | | n g | tm | o w | t' | t' | k t' a | t' a | k t' od | | ];
+    simpl in Hb; try discriminate Hb;
+    try (apply andb_true_iff in Hb as [_ Hb]);
+    simpl; rewrite ?bt_run_tag_calls; simpl;
+    match goal with |- _ :: _ = _ :: _ => f_equal | _ => idtac end;
+    match type of Hb with bracketed_from ?q _ = true => apply (IH q); [|exact Hb] end;
+    unfold R, bt_with_cur; simpl; repeat split; try reflexivity; auto;
+    try (destruct a; reflexivity);
+    try (apply (We k t' a)); try (apply (Wo k t' None)).
+Qed.
+
+Lemma bytest_path_callbacks ls h : bracketed_from Outside h = true ->
+  bt_run bt_init (through ls LfByTest h) = expected_cbs (ptaggers ls) sst_init h.
+Proof.
+  intro Hb. rewrite <- bt_run_sig, through_bytest, bt_run_sig.
+  apply bytest_simulation with Outside; [|exact Hb].
+  unfold R; simpl. repeat split; reflexivity.
+Qed.
+
+Lemma subsetb_refl a : subsetb a a = true.
+Proof.
+  unfold subsetb. apply forallb_forall. intros x Hx. apply existsb_exists. exists x.
+  split; [exact Hx|apply Nat.eqb_refl].
+Qed.
+
+Lemma cb_ok_refl c : cb_ok c c = true.
+Proof.
+  unfold cb_ok, set_eqb.
+  rewrite test_eqb_refl, !opt_nat_eqb_refl, subsetb_refl, opt_details_eqb_refl. reflexivity.
+Qed.
+
+Lemma forall2b_refl {A} (p : A -> A -> bool) l : (forall x, p x x = true) -> forall2b p l l = true.
+Proof. intro H. induction l as [|x l IH]; simpl; [reflexivity|]. rewrite H, IH. reflexivity. Qed.
+
+Lemma forall2b_map {A B C} (p : B -> C -> bool) (f : A -> B) (g : A -> C) l :
+  (forall x, In x l -> p (f x) (g x) = true) -> forall2b p (map f l) (map g l) = true.
+Proof.
+  induction l as [|x l IH]; intro H; simpl; [reflexivity|].
+  rewrite (H x (or_introl eq_refl)). apply IH. intros y Hy. apply H. right; exact Hy.
+Qed.
+
+(* ================= raising calls ================= *)
+Lemma raises_only a c e : raises a c = Some e ->
+  e = AttributeError /\ (c = Done \/ exists o w, c = Progress o w).
+Proof.
+  destruct c; try (destruct a; discriminate).
+  - (* progress *) intro H. split; [|right; eauto].
+    induction a as [cp| |a IH|l|a IH|n g a IH]; simpl in H.
+    + destruct (c_progress cp); congruence.
+    + congruence.
+    + destruct (c_progress (iface a)); [apply IH; exact H|discriminate].
+    + congruence.
+    + apply IH; exact H.
+    + apply IH; exact H.
+  - (* done *) intro H. split; [|left; reflexivity].
+    destruct a as [cp| |a|l|a|n g a]; simpl in H; try congruence.
+    destruct (c_done cp); congruence.
+Qed.
+
+Lemma raised_from_ok a h' : forall pre,
+  raised_okb (pre ++ h') (raised_from a (length pre) h') = true.
+Proof.
+  induction h' as [|c r IH]; intro pre; [reflexivity|].
+  assert (Hrest : raised_okb (pre ++ c :: r) (raised_from a (S (length pre)) r) = true).
+  { specialize (IH (pre ++ [c])). rewrite <- app_assoc, app_length in IH. simpl in IH.
+    rewrite Nat.add_1_r in IH. exact IH. }
+  simpl. destruct (raises a c) as [e|] eqn:E; [|exact Hrest].
+  destruct (raises_only _ _ _ E) as [-> Hc].
+  unfold raised_okb. simpl. rewrite nth_error_app2, Nat.sub_diag by apply Nat.le_refl. simpl.
+  fold (raised_okb (pre ++ c :: r) (raised_from a (S (length pre)) r)). rewrite Hrest.
+  destruct Hc as [->|(o & w & ->)]; reflexivity.
+Qed.
+
+(* ================= the model meets the statement ================= *)
+Lemma forallb_filter {A} (p q : A -> bool) l : forallb p l = true -> forallb p (filter q l) = true.
+Proof.
+  induction l as [|x l IH]; simpl; intro H; [reflexivity|].
+  apply andb_true_iff in H as [H1 H2]. destruct (q x); simpl; [rewrite H1|]; apply IH; exact H2.
+Qed.
+
+Lemma path_meets_spec a h p :
+  ext_ok a = true -> wf_stack a = true -> forallb call_okb h = true -> bracketed_from Outside h = true ->
+  In p (paths a) -> leaf_okb h (spec_of_path p) (leaf_run h p) = true.
+Proof.
+  intros He Hwf Hok Hb Hin. destruct (paths_wf a Hwf p Hin) as [Hp Hx]. specialize (Hx He).
+  destruct p as [ls [c|]]; unfold leaf_okb, leaf_run, spec_of_path; simpl in *.
+  - apply (target_path_delivers c ls h Hp Hx). apply forallb_filter. exact Hok.
+  - rewrite bytest_path_callbacks by exact Hb. apply forall2b_refl. exact cb_ok_refl.
+Qed.
+
+Theorem model_meets_spec i : wf i -> spec_okb i (model i) = true.
+Proof.
+  unfold wf, wfb. intro H. split_andb H.
+  unfold spec_okb, model, run. simpl. apply andb_true_iff. split.
+  - exact (raised_from_ok (stack i) (hist i) []).
+  - rewrite spec_leaves_paths. apply forall2b_map. intros p Hp.
+    apply (path_meets_spec (stack i)); assumption.
+Qed.
+
+(* ================= the executable statement implies the readable one ================= *)
+Lemma forall2b_Forall2 {A B} (p : A -> B -> bool) (P : A -> B -> Prop) :
+  (forall a b, p a b = true -> P a b) -> forall l m, forall2b p l m = true -> Forall2 P l m.
+Proof.
+  intros H l. induction l as [|a l IH]; intros [|b m] E; simpl in E; try discriminate; constructor.
+  - apply H. apply andb_true_iff in E as [E _]. exact E.
+  - apply IH. apply andb_true_iff in E as [_ E]. exact E.
+Qed.
+
+Lemma delivered_ok_sound c hc lc : delivered_ok c hc lc = true -> Delivered c hc lc.
+Proof.
+  destruct hc as [ | | | | | t | t | k t a | t a | k t od | | ]; simpl; try discriminate.
+  - destruct lc; try discriminate. intro H. apply test_eqb_spec in H; subst. constructor.
+  - destruct lc; try discriminate. intro H. apply test_eqb_spec in H; subst. constructor.
+  - destruct (has_err c k) eqn:Hk.
+    + destruct lc as [ | | | | | | | k' t' a' | | | | ]; try discriminate. intro H. split_andb H.
+      apply ekind_eqb_spec in H. apply test_eqb_spec in H1. subst k' t'.
+      destruct a as [e|d], a' as [e'|d']; try discriminate.
+      * apply errv_eqb_spec in H0. subst. constructor. exact Hk.
+      * destruct e'; try discriminate. apply andb_true_iff in H0 as [D C].
+        apply negb_true_iff in D. apply contains_all_spec in C. constructor; assumption.
+      * apply andb_true_iff in H0 as [D E]. apply details_eqb_spec in E. subst. constructor; assumption.
+    + destruct lc as [ | | | | | | | | | k' t' od' | | ]; try discriminate.
+      destruct k'; try discriminate. destruct od'; try discriminate.
+      intro H. apply test_eqb_spec in H. subst.
+      destruct k; simpl in Hk; try discriminate. constructor. exact Hk.
+  - destruct (c_skip c) eqn:Hs.
+    + destruct lc as [ | | | | | | | | t' a' | | | ]; try discriminate. intro H. split_andb H.
+      apply test_eqb_spec in H. subst t'.
+      destruct a as [r|d], a' as [r'|d']; try discriminate.
+      * apply text_eqb_spec in H0. subst. constructor. exact Hs.
+      * apply andb_true_iff in H0 as [D C]. apply negb_true_iff in D.
+        destruct (lookup n_reason d) as [k|] eqn:L.
+        -- destruct k as [r| |].
+           ++ apply text_eqb_spec in C. subst. apply D_skip_key; assumption.
+           ++ eapply D_skip_odd; try eassumption. intros r Hr. discriminate.
+           ++ eapply D_skip_odd; try eassumption. intros r Hr. discriminate.
+        -- apply contains_all_spec in C. apply D_skip_str; assumption.
+      * apply andb_true_iff in H0 as [D E]. apply details_eqb_spec in E. subst. constructor; assumption.
+    + destruct lc as [ | | | | | | | | | k' t' od' | | ]; try discriminate.
+      destruct k'; try discriminate. destruct od'; try discriminate.
+      intro H. apply test_eqb_spec in H. subst. constructor. exact Hs.
+  - destruct (has_ok c k) eqn:Hk.
+    + destruct lc as [ | | | | | | | | | k' t' od' | | ]; try discriminate. intro H. split_andb H.
+      apply okind_eqb_spec in H. apply test_eqb_spec in H1. subst k' t'.
+      destruct (c_details c) eqn:D.
+      * apply orb_true_iff in H0 as [E|E].
+        -- apply (option_eqb_spec _ details_eqb_spec) in E. subst. constructor; assumption.
+        -- destruct k; try discriminate. destruct od as [[|]|]; try discriminate.
+           destruct od'; try discriminate. apply D_ok_empty. exact D.
+      * destruct od'; try discriminate. apply D_ok_plain; assumption.
+    + destruct lc as [ | | | | | | | k' t' a' | | | | ]; try discriminate.
+      destruct k'; try discriminate. destruct a' as [e|]; try discriminate. destruct e; try discriminate.
+      intro H. apply test_eqb_spec in H. subst.
+      destruct k; simpl in Hk; try discriminate. constructor. exact Hk.
+Qed.
+
+Lemma subsetb_spec a b : subsetb a b = true -> forall x, In x a -> In x b.
+Proof.
+  unfold subsetb. rewrite forallb_forall. intros H x Hx. specialize (H x Hx).
+  apply existsb_exists in H as (y & Hy & E). apply Nat.eqb_eq in E. subst. exact Hy.
+Qed.
+
+Lemma cb_ok_sound e c : cb_ok e c = true -> CbSpec e c.
+Proof.
+  unfold cb_ok, CbSpec, set_eqb. intro H. split_andb H.
+  apply test_eqb_spec in H. apply (option_eqb_spec _ nat_eqb_spec) in H4, H3, H2.
+  apply andb_true_iff in H1 as [S1 S2]. apply (option_eqb_spec _ details_eqb_spec) in H0.
+  repeat split; try assumption; apply subsetb_spec; assumption.
+Qed.
+
+Lemma raised_okb_sound h r : raised_okb h r = true -> RaisedSpec h r.
+Proof.
+  unfold raised_okb, RaisedSpec. rewrite forallb_forall. intros H j e Hin.
+  specialize (H _ Hin). simpl in H. apply andb_true_iff in H as [H1 H2].
+  apply exn_eqb_spec in H1. split; [exact H1|].
+  destruct (nth_error h j) as [[ | | | |o w| | | | | | | ]|]; try discriminate; eauto.
+Qed.
+
+Lemma leaf_okb_sound h lt lo : leaf_okb h lt lo = true -> LeafSpec h lt lo.
+Proof.
+  unfold leaf_okb, LeafSpec. destruct (fst lt), lo; try discriminate.
+  - apply forall2b_Forall2. apply delivered_ok_sound.
+  - apply forall2b_Forall2. apply cb_ok_sound.
+Qed.
+
+Theorem spec_okb_sound i o : spec_okb i o = true -> Spec i o.
+Proof.
+  unfold spec_okb, Spec. intro H. apply andb_true_iff in H as [H1 H2]. split.
+  - apply raised_okb_sound. exact H1.
+  - revert H2. apply forall2b_Forall2. apply leaf_okb_sound.
+Qed.
+
+(* ================= the clauses, for any observation that meets the statement ================= *)
+Lemma Forall2_nth {A B} (P : A -> B -> Prop) l m : Forall2 P l m ->
+  forall k a, nth_error l k = Some a -> exists b, nth_error m k = Some b /\ P a b.
+Proof.
+  induction 1 as [|x y l m Hxy H IH]; intros k a Hk.
+  - destruct k; discriminate.
+  - destruct k; simpl in *.
+    + injection Hk as <-. eauto.
+    + apply IH. exact Hk.
+Qed.
+
+Lemma Delivered_shape c hc lc : Delivered c hc lc -> shape hc = shape lc.
+Proof. destruct 1; reflexivity. Qed.
+
+Lemma Delivered_fail c hc lc : Delivered c hc lc -> is_fail hc = true -> is_fail lc = true.
+Proof. destruct 1; simpl; try congruence; try (destruct k; congruence). Qed.
+
+Lemma Forall2_map_eq {A B C} (f : A -> C) (g : B -> C) l m :
+  Forall2 (fun a b => f a = g b) l m -> map f l = map g m.
+Proof. induction 1; simpl; congruence. Qed.
+
+Lemma Forall2_impl {A B} (P Q : A -> B -> Prop) l m :
+  (forall a b, P a b -> Q a b) -> Forall2 P l m -> Forall2 Q l m.
+Proof. intros H; induction 1; constructor; auto. Qed.
+
+(* the log of a logging result at position k *)
+Lemma spec_target i o k c tg : Spec i o -> nth_error (spec_leaves (stack i)) k = Some (LfTarget c, tg) ->
+  exists l, nth_error (o_leaves o) k = Some (OLog l) /\ Forall2 (Delivered c) (bracket (hist i)) (bracket l).
+Proof.
+  intros [_ H] Hk. destruct (Forall2_nth _ _ _ H k _ Hk) as (lo & Hlo & HL).
+  unfold LeafSpec in HL. simpl in HL. destruct lo as [l|cbs]; [|destruct HL]. eauto.
+Qed.
+
+Lemma spec_bytest i o k tg : Spec i o -> nth_error (spec_leaves (stack i)) k = Some (LfByTest, tg) ->
+  exists cbs, nth_error (o_leaves o) k = Some (OCbs cbs)
+              /\ Forall2 CbSpec (expected_cbs tg sst_init (hist i)) cbs.
+Proof.
+  intros [_ H] Hk. destruct (Forall2_nth _ _ _ H k _ Hk) as (lo & Hlo & HL).
+  unfold LeafSpec in HL. simpl in HL. destruct lo as [l|cbs]; [destruct HL|]. eauto.
+Qed.
+
+Lemma once_in_order i o k c tg : Spec i o -> nth_error (spec_leaves (stack i)) k = Some (LfTarget c, tg) ->
+  exists l, nth_error (o_leaves o) k = Some (OLog l)
+            /\ map shape (bracket l) = map shape (bracket (hist i)).
+Proof.
+  intros HS Hk. destruct (spec_target i o k c tg HS Hk) as (l & Hl & HD). exists l. split; [exact Hl|].
+  symmetry. apply Forall2_map_eq. eapply Forall2_impl; [|exact HD]. apply Delivered_shape.
+Qed.
+
+Lemma no_pass_from_fail i o k c tg : Spec i o -> nth_error (spec_leaves (stack i)) k = Some (LfTarget c, tg) ->
+  exists l, nth_error (o_leaves o) k = Some (OLog l)
+            /\ Forall2 (fun hc lc => is_fail hc = true -> is_fail lc = true) (bracket (hist i)) (bracket l).
+Proof.
+  intros HS Hk. destruct (spec_target i o k c tg HS Hk) as (l & Hl & HD). exists l. split; [exact Hl|].
+  eapply Forall2_impl; [|exact HD]. apply Delivered_fail.
+Qed.
+
+(* one callback per stopTest, for its test *)
+Lemma expected_cbs_tests tg h : forall s, map cb_test (expected_cbs tg s h) = stop_tests h.
+Proof.
+  induction h as [|c h IH]; intro s; [reflexivity|].
+  destruct c; simpl; rewrite ?IH; try reflexivity;
+    try (destruct (s_loc s); simpl; apply IH).
+Qed.
+
+Definition phase_tests (p : phase) : list test :=
+  match p with Outside => [] | Started t | Reported t => [t] end.
+
+(* in a bracketed history the tests stopped are the tests started, in the same order *)
+Lemma bracketed_tests h : forall p, bracketed_from p h = true ->
+  phase_tests p ++ start_tests h = stop_tests h.
+Proof.
+  induction h as [|c h IH]; intros p Hb.
+  - destruct p; try discriminate. reflexivity.
+  - destruct c; simpl in Hb; destruct p; try discriminate; simpl;
+      try (apply andb_true_iff in Hb as [Ht Hb]; apply test_eqb_spec in Ht; subst);
+      try (match goal with |- _ :: _ = _ :: _ => f_equal end);
+      match type of Hb with bracketed_from ?q _ = true => exact (IH q Hb) end.
+Qed.
+
+Lemma CbSpec_tests l m : Forall2 CbSpec l m -> map cb_test m = map cb_test l.
+Proof. induction 1 as [|x y l m [H _] _ IH]; simpl; congruence. Qed.
+
+Lemma bytest_clause i o k tg : wf i -> Spec i o ->
+  nth_error (spec_leaves (stack i)) k = Some (LfByTest, tg) ->
+  exists cbs, nth_error (o_leaves o) k = Some (OCbs cbs)
+              /\ Forall2 CbSpec (expected_cbs tg sst_init (hist i)) cbs
+              /\ map cb_test cbs = stop_tests (hist i)
+              /\ stop_tests (hist i) = start_tests (hist i).
+Proof.
+  intros Hwf HS Hk. destruct (spec_bytest i o k tg HS Hk) as (cbs & Hc & HF).
+  exists cbs. repeat split; try assumption.
+  - rewrite (CbSpec_tests _ _ HF). apply expected_cbs_tests.
+  - unfold wf, wfb in Hwf. split_andb Hwf. symmetry. exact (bracketed_tests _ Outside Hwf0).
+Qed.
+
+(* the observation has exactly one entry per innermost result, of the right kind *)
+Lemma spec_leaves_shape i o : Spec i o ->
+  Forall2 (fun lt lo => match fst lt, lo with LfTarget _, OLog _ | LfByTest, OCbs _ => True | _, _ => False end)
+          (spec_leaves (stack i)) (o_leaves o).
+Proof.
+  intros [_ H]. eapply Forall2_impl; [|exact H]. intros [lf tg] lo. unfold LeafSpec. simpl.
+  destruct lf, lo; auto.
+Qed.
+
+(* non-vacuity of the two synthetic-text clauses: the model's texts *)
+Lemma skip_reason_key d r : lookup n_reason d = Some (DText r) -> skip_reason d = r.
+Proof. unfold skip_reason. intros ->. reflexivity. Qed.
+
+(* ================= the clauses, for the model ================= *)
+Lemma model_spec i : wf i -> Spec i (model i).
+Proof. intro H. apply spec_okb_sound. apply model_meets_spec. exact H. Qed.
+
+Lemma model_once_in_order i : wf i -> forall k c tg,
+  nth_error (spec_leaves (stack i)) k = Some (LfTarget c, tg) ->
+  exists l, nth_error (o_leaves (model i)) k = Some (OLog l)
+            /\ map shape (bracket l) = map shape (bracket (hist i)).
+Proof. intros H k c tg. apply once_in_order. apply model_spec. exact H. Qed.
+
+Lemma model_degradation i : wf i -> forall k c tg,
+  nth_error (spec_leaves (stack i)) k = Some (LfTarget c, tg) ->
+  exists l, nth_error (o_leaves (model i)) k = Some (OLog l)
+            /\ Forall2 (Delivered c) (bracket (hist i)) (bracket l).
+Proof. intros H k c tg. apply spec_target. apply model_spec. exact H. Qed.
+
+Lemma model_no_pass_from_fail i : wf i -> forall k c tg,
+  nth_error (spec_leaves (stack i)) k = Some (LfTarget c, tg) ->
+  exists l, nth_error (o_leaves (model i)) k = Some (OLog l)
+            /\ Forall2 (fun hc lc => is_fail hc = true -> is_fail lc = true) (bracket (hist i)) (bracket l).
+Proof. intros H k c tg. apply no_pass_from_fail. apply model_spec. exact H. Qed.
+
+Lemma model_bytest i : wf i -> forall k tg,
+  nth_error (spec_leaves (stack i)) k = Some (LfByTest, tg) ->
+  exists cbs, nth_error (o_leaves (model i)) k = Some (OCbs cbs)
+              /\ Forall2 CbSpec (expected_cbs tg sst_init (hist i)) cbs
+              /\ map cb_test cbs = stop_tests (hist i)
+              /\ stop_tests (hist i) = start_tests (hist i).
+Proof. intros H k tg. apply bytest_clause; [exact H|]. apply model_spec. exact H. Qed.
+
+Lemma model_leaves i : wf i ->
+  Forall2 (fun lt lo => match fst lt, lo with LfTarget _, OLog _ | LfByTest, OCbs _ => True | _, _ => False end)
+          (spec_leaves (stack i)) (o_leaves (model i)).
+Proof. intro H. apply spec_leaves_shape. apply model_spec. exact H. Qed.
+
+(* the substring lemma, under its public name *)
+Lemma details_text d sp : NoDup (map fst d) -> ContainsAll d (details_to_str d sp).
+Proof. apply details_to_str_contains. Qed.
